@@ -4,7 +4,7 @@
 //verif:dump common
 //verif:dump sema
 //verif:dump fixedpoint
-//verif:assume CCF round trip of scalar values and small containers: for every value of the kind (full width; Int/UInt |x| < 2^128; strings/identifiers <= 3 bytes of valid UTF-8; arrays/dictionaries of <= 2 UInt8/UInt16 entries; optionals of a UInt8) the real ccf.Encode followed by the real ccf.Decode (incl. github.com/fxamacker/cbor's stream encoder/decoder run from source) yields a value of the same kind and content, never crashes, and a dictionary's encoding does not depend on the order of its entries; composites, events, type values, capabilities, type definitions are outside
+//verif:assume CCF round trip of scalar values and small containers: for every value of the kind (full width; Int/UInt |x| < 2^128; strings/identifiers <= 3 bytes of valid UTF-8; arrays/dictionaries of <= 2 UInt8/UInt16 entries; optionals of a UInt8) the real ccf.Encode followed by the real ccf.Decode (incl. github.com/fxamacker/cbor's stream encoder/decoder run from source) yields a value of the same kind and content, never crashes, and a dictionary's encoding does not depend on the order of its entries; other composites than a two-field struct, type values, capabilities are outside
 package PKGNAME
 
 import (
@@ -608,4 +608,76 @@ func ZZ_C42_RoundTrip_Dictionary2() {
 		}
 	}
 	zzAssert("same-entries", found1 && found2)
+}
+
+// A struct with two fields (type definition message, tag 129): default mode and deterministic
+// mode (fields sorted bytewise); the decoded struct has the same type ID and field values, and in
+// deterministic mode the encoding does not depend on the declaration order of the fields.
+//
+//verif:harness property=C42 mode=bv unwind=80 steps=40000000
+func ZZ_C42_RoundTrip_Struct() {
+	x, y := zzNondetUint8(), zzNondetUint16()
+	loc := common.StringLocation("x")
+	fa, fb := cadence.NewField("a", cadence.UInt8Type), cadence.NewField("bb", cadence.UInt16Type)
+	t1 := cadence.NewStructType(loc, "S", []cadence.Field{fa, fb}, nil)
+	t2 := cadence.NewStructType(loc, "S", []cadence.Field{fb, fa}, nil)
+	v1 := cadence.NewStruct([]cadence.Value{cadence.UInt8(x), cadence.UInt16(y)}).WithType(t1)
+	v2 := cadence.NewStruct([]cadence.Value{cadence.UInt16(y), cadence.UInt8(x)}).WithType(t2)
+	r, ok := zzRoundTrip(v1)
+	if !ok {
+		return
+	}
+	u, same := r.(cadence.Struct)
+	zzAssert("same-kind", same)
+	if !same {
+		return
+	}
+	zzAssert("same-type-id", u.StructType != nil && u.StructType.ID() == t1.ID())
+	a, isA := u.SearchFieldByName("a").(cadence.UInt8)
+	b, isB := u.SearchFieldByName("bb").(cadence.UInt16)
+	zzAssert("same-fields", isA && isB && uint8(a) == x && uint16(b) == y)
+	// deterministic mode
+	det, err := EncOptions{SortCompositeFields: SortBytewiseLexical, SortIntersectionTypes: SortBytewiseLexical, SortEntitlementTypes: SortBytewiseLexical}.EncMode()
+	zzAssert("deterministic-mode-exists", err == nil)
+	if err != nil {
+		return
+	}
+	var b1, b2 []byte
+	var e1, e2 error
+	out := zzCatch(func() any {
+		b1, e1 = det.Encode(v1)
+		b2, e2 = det.Encode(v2)
+		return nil
+	})
+	zzAssert("encode-no-crash", !out.Panicked)
+	if out.Panicked {
+		return
+	}
+	zzAssert("encode-ok", e1 == nil && e2 == nil)
+	zzAssert("deterministic-encoding-independent-of-field-order", bytes.Equal(b1, b2))
+	strict, err := DecOptions{EnforceSortCompositeFields: EnforceSortBytewiseLexical, EnforceSortIntersectionTypes: EnforceSortBytewiseLexical, EnforceSortEntitlementTypes: EnforceSortBytewiseLexical}.DecMode()
+	zzAssert("strict-mode-exists", err == nil)
+	if err != nil {
+		return
+	}
+	var r2 cadence.Value
+	out = zzCatch(func() any {
+		r2, e1 = strict.Decode(nil, b2)
+		return nil
+	})
+	zzAssert("decode-no-crash", !out.Panicked)
+	if out.Panicked {
+		return
+	}
+	zzAssert("strict-decoder-accepts-deterministic-encoding", e1 == nil)
+	if e1 != nil {
+		return
+	}
+	u2, same2 := r2.(cadence.Struct)
+	zzAssert("same-kind", same2)
+	if same2 {
+		a2, isA2 := u2.SearchFieldByName("a").(cadence.UInt8)
+		b2v, isB2 := u2.SearchFieldByName("bb").(cadence.UInt16)
+		zzAssert("same-fields", isA2 && isB2 && uint8(a2) == x && uint16(b2v) == y)
+	}
 }
